@@ -541,7 +541,7 @@ def run(ctx):
     ctx.floor("C19.R2b", 100, "early-return waits of generated work()")
     ctx.floor("C19.R3", 36 + 30, "generated eof()")
     ctx.floor("C19.R4", 2, "generated code of the family and of the crate scanned (no panic-capable site today)")
-    ctx.floor("C19.R1w", 2, "constructor output-order witnesses")
+    ctx.floor("C19.R1w", 5, "constructor / sync output-order witnesses (declaration order, incl. non-alphabetical field names)")
     ctx.explain("C19: the programs quantified over are a generated family (sync and sync_tag x 1..3 inputs x 1..3 outputs, distinct "
                 "element types, with and without default/into fields; compiled, never run) plus every derive(Block) user of the "
                 "crate. On the MIR of each generated new()/work()/eof(): fresh stream per output with read ends returned in "
